@@ -32,4 +32,6 @@ def run(P, R, L):
     R.clause("GRD-11", "a log re-opened for appending continues at block offset len % BLOCK_SIZE for every non-empty file; writer and reader "
              "use the same trailer test")
     K.grd11_reopen_offset(P, R, L)
+    R.clause("GRD-12", "a WAL / manifest is re-opened for appending only if the reader consumed it completely (no append after a torn tail)")
+    K.grd12_reuse_only_complete_logs(P, R, L)
     R.not_decided += ["offset arithmetic of LogWriter::new(is_appending = true)", "records appended inside a torn block"]
